@@ -68,6 +68,8 @@ def cond_specs(tier):
         out.append({"value.equal_to": dict(lit)})
         out.append({"value.in": [dict(lit), 1]})
         out.append({"value.items_contain": {"q": dict(lit), "r": {"path": ["b"]}}})
+    for _t, sp in S.litmap_cases():     # literal mappings with 'path' keys: every escaped / unescaped spelling and position
+        out.append(sp)
     from mc.props.c02 import trees, spec_of
     for t in trees(2):
         k = T.cond_kinds(t)
